@@ -102,7 +102,10 @@ static vj_t *vj_any_shallow(void)
 	n->sval = (t == JSON_STRING) ? vj_nondet_string() : NULL;
 	n->tracked = NULL;
 	n->asize = nondet_size_t();
-	__CPROVER_assume(n->asize < 0x100000);
+#ifndef VJ_MAX_ASIZE
+#define VJ_MAX_ASIZE 0x100000
+#endif
+	__CPROVER_assume(n->asize < VJ_MAX_ASIZE);
 	return n;
 }
 
